@@ -2,11 +2,14 @@ package main
 
 import (
 	"context"
+	"encoding/json"
 	"fmt"
 	"math/rand"
+	"net/http"
 	"sort"
 	"strconv"
 	"strings"
+	"sync"
 	"time"
 
 	"github.com/andydunstall/piko/pkg/auth"
@@ -16,9 +19,10 @@ import (
 	"verifharness/internal/psim"
 )
 
+// lsn is what the driver knows about a listener: what it did to it (client-side truth).
 type lsn struct {
 	e   string
-	st  string // connected | goaway | removed | closed
+	st  string // "" (never connected) | connected | goaway | closed
 	up  *psim.Upstream
 	rel *psim.Relay
 }
@@ -59,192 +63,395 @@ func observeLife(n *psim.Node, s *Step) {
 	s.Gos = ecOf(gos)
 }
 
-func expected(ls []*lsn) (map[string]int, int) {
-	reg := map[string]int{}
-	sess := 0
-	for _, l := range ls {
-		if l.st == "connected" || l.st == "goaway" {
-			reg[l.e]++
-		}
-		if l.st != "closed" {
-			sess++
+func cntOf(a []EC, e string) int {
+	for _, x := range a {
+		if x.E == e {
+			return x.C
 		}
 	}
-	return reg, sess
+	return 0
 }
 
-func sameEC(a []EC, m map[string]int) bool {
-	if len(a) != len(m) {
+func sameObs(a, b *Step) bool {
+	ja, _ := json.Marshal([]interface{}{a.Reg, a.Sess, a.Adv, a.Gos})
+	jb, _ := json.Marshal([]interface{}{b.Reg, b.Sess, b.Adv, b.Gos})
+	return string(ja) == string(jb)
+}
+
+// lifeSim drives one real node (plus an idle peer so that shedding is
+// possible) with listeners behind cuttable relays. Every command is logged
+// with what is read from the node once it is quiescent again; the driver keeps
+// only what it did itself (which listeners are open, which stopped
+// accepting) to know when to stop waiting. The judgement is TraceL.tla's.
+type lifeSim struct {
+	n, peer *psim.Node
+	ids     []string
+	ls      map[string]*lsn
+	out     []*Step
+	stopped bool
+}
+
+func newLifeSim(connE1, connE2 []string) (*lifeSim, error) {
+	// threshold 0: the periodic rebalancer is not started; Rebalance() is called by the scenario
+	n, err := psim.StartNode(psim.NodeOpts{ID: "a", Rebalance: &config.RebalanceConfig{Threshold: 0, ShedRate: 1, MinConns: 1}})
+	if err != nil {
+		return nil, err
+	}
+	peer, err := psim.StartNode(psim.NodeOpts{ID: "b", Join: []string{n.GossipAddr()}})
+	if err != nil {
+		n.Stop()
+		return nil, err
+	}
+	s := &lifeSim{n: n, peer: peer, ls: map[string]*lsn{}}
+	for _, c := range connE1 {
+		s.ls[c] = &lsn{e: "e1"}
+		s.ids = append(s.ids, c)
+	}
+	for _, c := range connE2 {
+		s.ls[c] = &lsn{e: "e2"}
+		s.ids = append(s.ids, c)
+	}
+	sort.Strings(s.ids)
+	s.out = append(s.out, &Step{Op: "Reset"})
+	return s, nil
+}
+
+func (s *lifeSim) close() {
+	if !s.stopped {
+		s.n.Stop()
+	}
+	s.peer.Stop()
+	for _, l := range s.ls {
+		if l.up != nil {
+			l.up.Shutdown()
+		}
+		if l.rel != nil {
+			l.rel.Close()
+		}
+	}
+}
+
+// plausible: what is read is compatible with what the driver did (sessions =
+// connections it holds open; open ones registered; nothing beyond them).
+func (s *lifeSim) plausible(o *Step) bool {
+	alive, open := map[string]int{}, map[string]int{}
+	na := 0
+	for _, l := range s.ls {
+		if s.stopped {
+			continue
+		}
+		if l.st == "connected" || l.st == "goaway" {
+			alive[l.e]++
+			na++
+		}
+		if l.st == "connected" {
+			open[l.e]++
+		}
+	}
+	if o.Sess != na {
 		return false
 	}
-	for _, x := range a {
-		if m[x.E] != x.C {
+	for _, e := range []string{"e1", "e2"} {
+		r := cntOf(o.Reg, e)
+		if r < open[e] || r > alive[e] || cntOf(o.Adv, e) != r || cntOf(o.Gos, e) != r {
 			return false
 		}
 	}
 	return true
 }
 
-// runC16: one node (plus an idle peer so that shedding is possible), listeners
-// behind cuttable relays, a random sequence of ways a connection can end.
-func runC16(rng *rand.Rand, depth int, emit emitter) error {
-	// threshold 0: the periodic rebalancer is not started; Rebalance() is called by the scenario
-	n, err := psim.StartNode(psim.NodeOpts{ID: "a", Rebalance: &config.RebalanceConfig{Threshold: 0, ShedRate: 1, MinConns: 1}})
+// observe waits (bounded) until what is read is plausible and has stopped changing, and logs it.
+func (s *lifeSim) observe(st *Step) {
+	st.Op = "Life"
+	var prev *Step
+	deadline := time.Now().Add(3 * time.Second)
+	for {
+		cur := &Step{}
+		observeLife(s.n, cur)
+		if prev != nil && sameObs(prev, cur) && (s.plausible(cur) || time.Now().After(deadline)) {
+			st.Reg, st.Sess, st.Adv, st.Gos = cur.Reg, cur.Sess, cur.Adv, cur.Gos
+			break
+		}
+		prev = cur
+		time.Sleep(8 * time.Millisecond)
+	}
+	b, _ := json.Marshal([]interface{}{st.Ev, st.C, st.E})
+	st.Cmd = string(b)
+	s.out = append(s.out, st)
+}
+
+func (s *lifeSim) accepted() int64 {
+	var t int64
+	for _, l := range s.ls {
+		if l.rel != nil {
+			t += l.rel.Accepted.Load()
+		}
+	}
+	return t
+}
+
+func (s *lifeSim) listen(c string) error {
+	l := s.ls[c]
+	if l.up != nil {
+		l.up.Shutdown()
+	}
+	if l.rel != nil {
+		l.rel.Close()
+	}
+	rel, err := psim.NewRelay(s.n.UpstreamAddr())
 	if err != nil {
 		return err
 	}
-	peer, err := psim.StartNode(psim.NodeOpts{ID: "b", Join: []string{n.GossipAddr()}})
+	u, err := psim.Listen(context.Background(), rel.Addr(), l.e, c, "", "")
 	if err != nil {
 		return err
 	}
-	defer peer.Stop()
-	var ls []*lsn
-	connect := func(e string) error {
-		rel, err := psim.NewRelay(n.UpstreamAddr())
-		if err != nil {
-			return err
+	l.up, l.rel, l.st = u, rel, "connected"
+	return nil
+}
+
+func (s *lifeSim) request(e string) *Step {
+	rep := psim.Request(s.n.ProxyAddr(), "header", e, "GET", "/c16", nil, nil)
+	st := &Step{Ev: "request", E: e, Status: rep.Status}
+	if rep.Stamp != nil {
+		st.Served = rep.Stamp.Upstream
+	}
+	s.observe(st)
+	return st
+}
+
+// do executes one command of Lifecycle.tla's MacroNext; commands that do not apply to what the driver did so
+// far (a scenario generated from the model whose request was answered by another listener) are skipped.
+func (s *lifeSim) do(cmd []interface{}) error {
+	name, _ := cmd[0].(string)
+	arg := func(i int) string {
+		if len(cmd) > i {
+			x, _ := cmd[i].(string)
+			return x
 		}
-		u, err := psim.Listen(context.Background(), rel.Addr(), e, fmt.Sprintf("u%d", len(ls)), "", "")
-		if err != nil {
-			return err
-		}
-		ls = append(ls, &lsn{e: e, st: "connected", up: u, rel: rel})
+		return ""
+	}
+	if s.stopped {
 		return nil
 	}
-	lstates := func() []Lstate {
-		var out []Lstate
-		for _, l := range ls {
-			out = append(out, Lstate{E: l.e, St: l.st})
-		}
-		return out
-	}
-	observe := func(ev string) {
-		wantReg, wantSess := expected(ls)
-		s := &Step{Op: "Life", Ev: ev}
-		// quiescence: wait (bounded) until what we read stops changing and matches; report what is there
-		psim.WaitFor(3*time.Second, func() bool {
-			observeLife(n, s)
-			return sameEC(s.Reg, wantReg) && s.Sess == wantSess && sameEC(s.Adv, wantReg) && sameEC(s.Gos, wantReg)
-		})
-		s.Lst = lstates()
-		emit(s)
-	}
-	pickL := func(pred func(*lsn) bool) *lsn {
-		var c []*lsn
-		for _, l := range ls {
-			if pred(l) {
-				c = append(c, l)
-			}
-		}
-		if len(c) == 0 {
+	switch name {
+	case "DoListen":
+		c := arg(1)
+		l := s.ls[c]
+		if l == nil || l.st == "connected" || l.st == "goaway" {
 			return nil
 		}
-		return c[rng.Intn(len(c))]
-	}
-	eps := []string{"e1", "e1", "e2"}
-	for i := 0; i < 3; i++ {
-		if err := connect(eps[i]); err != nil {
+		if err := s.listen(c); err != nil {
 			return err
 		}
+		s.observe(&Step{Ev: "listen", C: c})
+	case "DoGoAway": // stop accepting, keep the connection
+		c := arg(1)
+		l := s.ls[c]
+		if l == nil || l.st != "connected" {
+			return nil
+		}
+		_ = l.up.Ln.Close()
+		l.st = "goaway"
+		time.Sleep(15 * time.Millisecond) // the go-away frame is on its way; nothing observable tells when it arrived
+		s.observe(&Step{Ev: "goaway", C: c})
+	case "DoClose": // client closes the connection
+		c := arg(1)
+		l := s.ls[c]
+		if l == nil || (l.st != "connected" && l.st != "goaway") {
+			return nil
+		}
+		l.up.Shutdown()
+		l.st = "closed"
+		s.observe(&Step{Ev: "close", C: c})
+	case "DoRequestNone":
+		s.request(arg(1))
+	case "DoRequest": // repeat until the wanted listener was picked (round robin) or dropped by the proxy
+		e, c := arg(1), arg(2)
+		l := s.ls[c]
+		k := 0
+		for _, o := range s.ls {
+			if o.e == e && (o.st == "connected" || o.st == "goaway") {
+				k++
+			}
+		}
+		for i := 0; i <= k; i++ {
+			st := s.request(e)
+			if st.Served == c || (st.Status == 502 && l != nil && l.st == "goaway") || st.Status != 200 {
+				break
+			}
+		}
+	case "DoDrop": // network drop: the client reconnects unless it had stopped accepting
+		c := arg(1)
+		l := s.ls[c]
+		if l == nil || (l.st != "connected" && l.st != "goaway") {
+			return nil
+		}
+		before := l.rel.Accepted.Load()
+		l.rel.Cut("")
+		if l.st == "connected" {
+			psim.WaitFor(2*time.Second, func() bool { return l.rel.Accepted.Load() > before })
+		} else {
+			l.st = "closed"
+		}
+		s.observe(&Step{Ev: "drop", C: c})
+	case "DoDropInflight": // a request in flight while its upstream's connection is cut
+		c := arg(1)
+		l := s.ls[c]
+		if l == nil || l.st != "connected" {
+			return nil
+		}
+		for _, o := range s.ls {
+			if o.e == l.e && o.st == "goaway" {
+				return nil
+			}
+		}
+		var hold sync.WaitGroup
+		hold.Add(1)
+		l.up.Behave = func(w http.ResponseWriter, r *http.Request, st *psim.Stamp) bool {
+			if r.URL.Path == "/c16-inflight" {
+				time.Sleep(40 * time.Millisecond)
+			}
+			return false
+		}
+		go func() {
+			defer hold.Done()
+			psim.Request(s.n.ProxyAddr(), "header", l.e, "GET", "/c16-inflight", nil, nil)
+		}()
+		time.Sleep(10 * time.Millisecond)
+		before := l.rel.Accepted.Load()
+		l.rel.Cut("")
+		psim.WaitFor(2*time.Second, func() bool { return l.rel.Accepted.Load() > before })
+		hold.Wait()
+		s.observe(&Step{Ev: "drop-inflight", C: c})
+	case "DoShed": // server-initiated shedding; only while every listener would reconnect
+		any := false
+		for _, l := range s.ls {
+			if l.st == "goaway" {
+				return nil
+			}
+			if l.st == "connected" {
+				any = true
+			}
+		}
+		if !any {
+			return nil
+		}
+		before := s.accepted()
+		s.n.Server.VerifUpstream().Rebalance()
+		psim.WaitFor(time.Second, func() bool { return s.accepted() > before })
+		time.Sleep(80 * time.Millisecond) // the other sessions that were shed reconnect within their first backoff
+		s.observe(&Step{Ev: "shed"})
+	case "DoStop":
+		s.n.Stop()
+		s.stopped = true
+		s.observe(&Step{Ev: "stop"})
+	default:
+		return fmt.Errorf("unknown c16 command %q", name)
 	}
-	observe("connect")
-	for d := 0; d < depth; d++ {
-		switch rng.Intn(7) {
-		case 0:
-			if len(ls) < 7 {
-				if err := connect(eps[rng.Intn(3)]); err != nil {
-					return err
-				}
-				observe("connect")
+	return nil
+}
+
+func (s *lifeSim) randomCmd(rng *rand.Rand) []interface{} {
+	c := s.ids[rng.Intn(len(s.ids))]
+	switch rng.Intn(9) {
+	case 0, 1:
+		return []interface{}{"DoListen", c}
+	case 2:
+		return []interface{}{"DoClose", c}
+	case 3:
+		return []interface{}{"DoGoAway", c}
+	case 4, 5:
+		return []interface{}{"DoRequest", s.ls[c].e, c}
+	case 6:
+		return []interface{}{"DoDrop", c}
+	case 7:
+		return []interface{}{"DoShed"}
+	}
+	return []interface{}{"DoDropInflight", c}
+}
+
+// runLife: one scenario (a command list from the model's state graph, or a seeded random one).
+func runLife(connE1, connE2 []string, cmds [][]interface{}, rng *rand.Rand, depth int) ([]*Step, error) {
+	s, err := newLifeSim(connE1, connE2)
+	if err != nil {
+		return nil, err
+	}
+	defer s.close()
+	for _, cmd := range cmds {
+		if err := s.do(cmd); err != nil {
+			return s.out, err
+		}
+	}
+	if rng != nil {
+		for i := 0; i < 3 && i < len(s.ids); i++ {
+			if err := s.do([]interface{}{"DoListen", s.ids[i]}); err != nil {
+				return s.out, err
 			}
-		case 1: // client closes the connection
-			if l := pickL(func(l *lsn) bool { return l.st != "closed" }); l != nil {
-				l.up.Shutdown()
-				l.st = "closed"
-				observe("client-close")
-			}
-		case 2: // go-away: stop accepting, keep the connection
-			if l := pickL(func(l *lsn) bool { return l.st == "connected" }); l != nil {
-				_ = l.up.Ln.Close()
-				l.st = "goaway"
-				observe("go-away")
-			}
-		case 3: // a request: served, or it meets an upstream that went away and the proxy drops it
-			e := eps[rng.Intn(3)]
-			rep := psim.Request(n.ProxyAddr(), "header", e, "GET", "/c16", nil, nil)
-			if rep.Status == 502 {
-				if l := pickL(func(l *lsn) bool { return l.st == "goaway" && l.e == e }); l != nil {
-					l.st = "removed"
-				}
-			}
-			observe(fmt.Sprintf("request-%d", rep.Status))
-		case 4: // network drop: the client reconnects unless it had stopped accepting
-			if l := pickL(func(l *lsn) bool { return l.st != "closed" }); l != nil {
-				l.rel.Cut("")
-				if l.st != "connected" {
-					l.st = "closed"
-				}
-				time.Sleep(60 * time.Millisecond) // reconnect backoff
-				observe("drop")
-			}
-		case 5: // server-initiated shedding (one session); only when every listener would reconnect
-			all := true
-			for _, l := range ls {
-				if l.st == "goaway" || l.st == "removed" {
-					all = false
-				}
-			}
-			if all && pickL(func(l *lsn) bool { return l.st == "connected" }) != nil {
-				n.Server.VerifUpstream().Rebalance()
-				time.Sleep(60 * time.Millisecond)
-				observe("shed")
-			}
-		case 6: // a request in flight while its upstream's connection is cut
-			// (only on endpoints without a listener that went away: the request in flight could
-			// otherwise be the one that makes the proxy drop it, which the scenario could not tell
-			// from the 502 caused by the cut)
-			if l := pickL(func(l *lsn) bool {
-				if l.st != "connected" {
-					return false
-				}
-				for _, o := range ls {
-					if o.e == l.e && o.st == "goaway" {
-						return false
-					}
-				}
-				return true
-			}); l != nil {
-				l.up.Behave = nil
-				go psim.Request(n.ProxyAddr(), "header", l.e, "GET", "/c16-inflight", nil, nil)
-				time.Sleep(2 * time.Millisecond)
-				l.rel.Cut("")
-				time.Sleep(60 * time.Millisecond)
-				observe("drop-inflight")
+		}
+		for d := 0; d < depth; d++ {
+			if err := s.do(s.randomCmd(rng)); err != nil {
+				return s.out, err
 			}
 		}
 	}
 	// finally: either everybody disconnects, or the server shuts down under them
-	if rng.Intn(2) == 0 {
-		for _, l := range ls {
-			if l.st != "closed" {
-				l.up.Shutdown()
-				l.st = "closed"
+	if !s.stopped {
+		if rng == nil || rng.Intn(2) == 0 {
+			for _, c := range s.ids {
+				if err := s.do([]interface{}{"DoClose", c}); err != nil {
+					return s.out, err
+				}
 			}
-		}
-		observe("all-closed")
-		n.Stop()
-	} else {
-		n.Stop()
-		for _, l := range ls {
-			l.st = "closed"
-		}
-		observe("server-shutdown")
-		for _, l := range ls {
-			l.up.Shutdown()
+		} else if err := s.do([]interface{}{"DoStop"}); err != nil {
+			return s.out, err
 		}
 	}
-	for _, l := range ls {
-		l.rel.Close()
+	return s.out, nil
+}
+
+// runC16: the scenarios in parallel (each has its own nodes); traces are written in scenario order.
+func runC16(sf *sched, seed int64, emit emitter) error {
+	type job struct {
+		cmds [][]interface{}
+		rng  *rand.Rand
+	}
+	var jobs []job
+	for _, b := range sf.Behaviours {
+		jobs = append(jobs, job{cmds: b})
+	}
+	for i := 0; i < sf.Walks; i++ {
+		jobs = append(jobs, job{rng: rand.New(rand.NewSource(seed*7919 + int64(i)))})
+	}
+	par := sf.Par
+	if par <= 0 {
+		par = 6
+	}
+	results := make([][]*Step, len(jobs))
+	errs := make([]error, len(jobs))
+	var wg sync.WaitGroup
+	sem := make(chan struct{}, par)
+	for i := range jobs {
+		wg.Add(1)
+		go func(i int) {
+			defer wg.Done()
+			sem <- struct{}{}
+			defer func() { <-sem }()
+			depth := 0
+			if jobs[i].rng != nil {
+				depth = 10 + jobs[i].rng.Intn(10)
+			}
+			results[i], errs[i] = runLife(sf.ConnE1, sf.ConnE2, jobs[i].cmds, jobs[i].rng, depth)
+		}(i)
+	}
+	wg.Wait()
+	for i := range jobs {
+		for _, st := range results[i] {
+			emit(st)
+		}
+		if errs[i] != nil {
+			return errs[i]
+		}
 	}
 	return nil
 }
